@@ -1,4 +1,5 @@
 import RbModel.Gen.Lang
+import RbModel.Map
 
 /-!
 # Tag core — script + language → OpenType tags → script / langsys records (C18, tag part of C01)
@@ -496,6 +497,68 @@ def selectAll (cfg : Cfg) (tables : List (Option Table)) (script : Option Tag) (
   tables.mapM (fun
     | none => pure none
     | some tb => selectTable tb st lt)
+
+/-! ## ot_map.rs::collect_feature_maps on the selected records: the feature record a tag resolves to
+
+The feature compiler itself is `Map.lean` (C14), over a font given as the answers of the accessors it calls
+(`Map.Font`). Here those answers are computed from the abstract tables and the selection made above, so that the
+composition is the whole path  script + language → records → feature indices of the compiled map. -/
+
+/-- `vert`, the one tag ot_shape.rs registers with `F_GLOBAL_SEARCH` (`C18_plan_global_search_vert_only`) -/
+def TAG_vert : Tag := Map.tagOf 'v' 'e' 'r' 't'
+
+-- src: ot_map.rs::hb_ot_map_builder_t::collect_feature_maps (the F_GLOBAL_SEARCH arm; HarfBuzz: hb_ot_layout_table_find_feature)
+/-- `table.features.index(tag)` — ttf-parser's binary search — and from its hit the first record carrying the tag:
+    `(0..idx).find(|&i| table.features.get(i).map(|f| f.tag) == Some(tag)).unwrap_or(idx)` -/
+def findTableFeature (tb : Table) (ft : Tag) : Except Err (Option Nat) := do
+  match ← recIndex tb.features ft with
+  | none => .ok none
+  | some idx => .ok (some (((List.range idx).find? (fun i => tb.features[i]? == some ft)).getD idx))
+
+/-- `find_language_feature(script_index, lang_index, tag)` of table `t` (0 = GSUB, 1 = GPOS) under its selection;
+    `none` when the font has no such table or no script record was selected (`script_index[t]` is `None`) -/
+def langFeatureAt (tables : List (Option Table)) (sels : List (Option Selection)) (t : Nat) (ft : Tag) : Option Nat :=
+  match tables[t]?.join, sels[t]?.join with
+  | some tb, some s => findLanguageFeature tb s.scriptIndex s.langIndex ft
+  | _, _ => none
+
+/-- the global search in table `t`. The error arm is dead: `Lemmas/Tag.lean::findTableFeature_ok`. -/
+def anyFeatureAt (tables : List (Option Table)) (t : Nat) (ft : Tag) : Option Nat :=
+  match tables[t]?.join with
+  | some tb =>
+    match findTableFeature tb ft with
+    | .ok r => r
+    | .error _ => none
+  | none => none
+
+/-- the font as `hb_ot_map_builder_t` reads it. Lookups are not part of this core: they come in as parameters
+    (`collect_feature_maps` does not read them). -/
+def mapFont (tables : List (Option Table)) (sels : List (Option Selection))
+    (lookupCount : Nat → Nat) (featureLookups : Nat → Nat → Option (List Nat)) : Map.Font :=
+  { present := fun t => (tables[t]?.join).isSome
+    required := fun t =>
+      match tables[t]?.join, sels[t]?.join with
+      | some _, some s => s.required
+      | _, _ => none
+    lookupCount := lookupCount
+    langFeature := langFeatureAt tables sels
+    anyFeature := anyFeatureAt tables
+    featureLookups := featureLookups }
+
+-- src: ot_map.rs::hb_ot_map_builder_t::compile → collect_feature_maps
+/-- the `feature_map_t` list compiled for the builder's feature infos against the selected records -/
+def compileFeatures (c : Map.Cfg) (tables : List (Option Table)) (sels : List (Option Selection))
+    (isSimple : Bool) (infos : List Map.Info) : List Map.FMap :=
+  (Map.collectFeatureMaps c (mapFont tables sels (fun _ => 0) (fun _ _ => none)) isSimple infos).feats
+
+-- src: ot_shape_plan.rs::hb_ot_shape_plan_t::new → ot_shape.rs::collect_features + ot_map.rs::compile
+/-- feature maps of `ShapePlan::new(face, dir, script, language, &[])` for a shaper that registers no features of
+    its own (`Map.planBuilder`); `dir`: 0 LTR, 1 RTL, 2 TTB, 3 BTT -/
+def planFeatures (cfg : Cfg) (tables : List (Option Table)) (script : Option Tag) (language : Option Bytes)
+    (dir : Nat) : Except Err (List Map.FMap) := do
+  let sels ← selectAll cfg tables script language
+  let b := Map.planBuilder Map.genCfg dir []
+  .ok (compileFeatures Map.genCfg tables sels b.isSimple b.infos)
 
 /-! ## ot_shaper.rs: shaper for the scripts with several tag generations -/
 
